@@ -30,6 +30,8 @@ pub enum Op {
   CloneMap(bool),
   /// == with a fresh twin
   EqTwin,
+  /// equality with ONE second, equal tree that all threads share (false: tree == other, true: other == tree)
+  EqShared(bool),
 }
 
 #[derive(Clone, Debug, Serialize, Deserialize)]
@@ -144,6 +146,7 @@ fn op() -> BoxedStrategy<Op> {
     2 => Just(Op::CloneSource),
     1 => any::<bool>().prop_map(Op::CloneMap),
     1 => Just(Op::EqTwin),
+    2 => any::<bool>().prop_map(Op::EqShared),
   ]
   .boxed()
 }
@@ -182,6 +185,8 @@ fn execute_parallel(p: &Program) -> Result<Vec<Vec<Answer>>, String> {
   let answers: Arc<Mutex<Vec<Vec<Answer>>>> = Arc::new(Mutex::new(vec![vec![]; n]));
   let barrier = Arc::new(std::sync::Barrier::new(n));
   let (done_tx, done_rx) = std::sync::mpsc::channel::<usize>();
+  // a second, equal tree shared by all threads (operand of EqShared)
+  let other: BoxSource = build_shared(p);
   POOL.with(|pool| {
     let mut pool = pool.borrow_mut();
     if pool.is_none() {
@@ -189,8 +194,8 @@ fn execute_parallel(p: &Program) -> Result<Vec<Vec<Answer>>, String> {
     }
     let pool = pool.as_ref().unwrap();
     for (tid, ops) in p.threads.iter().enumerate() {
-      let (tree, text, answers, ops, spec, done_tx, barrier, ktids) =
-        (tree.clone(), text.clone(), answers.clone(), ops.clone(), p.tree.clone(), done_tx.clone(), barrier.clone(), ktids.clone());
+      let (tree, other, text, answers, ops, spec, done_tx, barrier, ktids) =
+        (tree.clone(), other.clone(), text.clone(), answers.clone(), ops.clone(), p.tree.clone(), done_tx.clone(), barrier.clone(), ktids.clone());
       let job: Job = Box::new(move || {
         let mut keep: Vec<Retained> = vec![];
         ktids.lock().unwrap()[tid] = std::fs::read_link("/proc/thread-self")
@@ -201,7 +206,7 @@ fn execute_parallel(p: &Program) -> Result<Vec<Vec<Answer>>, String> {
         barrier.wait();
         let mut mine = vec![];
         for op in ops {
-          mine.push(run_op(&tree, &spec, &text, op, &mut keep));
+          mine.push(run_op(&tree, &other, &spec, &text, op, &mut keep));
         }
         for k in &keep {
           if let Err(e) = k.verify() {
@@ -335,7 +340,7 @@ fn identity(m: &Option<rspack_sources::SourceMap>) -> usize {
   m.as_ref().map_or(0, |m| m.mappings().as_ptr() as usize)
 }
 
-fn run_op<'a>(tree: &'a BoxSource, spec: &Spec, text: &str, op: Op, keep: &mut Vec<Retained<'a>>) -> Answer {
+fn run_op<'a>(tree: &'a BoxSource, other: &BoxSource, spec: &Spec, text: &str, op: Op, keep: &mut Vec<Retained<'a>>) -> Answer {
   let r = guard(|| match op {
     Op::Source => Answer::Text(tree.source().to_string()),
     Op::Size => Answer::Size(tree.size()),
@@ -356,6 +361,7 @@ fn run_op<'a>(tree: &'a BoxSource, spec: &Spec, text: &str, op: Op, keep: &mut V
       Answer::MapAttr(attr_from_map(m.as_ref(), text, c).unwrap_or_else(|e| vec![Some((e, None, 0, 0, None))]))
     }
     Op::EqTwin => Answer::Eq(**tree == *build(spec)),
+    Op::EqShared(rev) => Answer::Eq(if rev { **other == **tree } else { **tree == **other }),
   });
   r.unwrap_or_else(Answer::Panic)
 }
@@ -382,8 +388,9 @@ fn expected(p: &Program) -> Vec<Vec<Answer>> {
         .iter()
         .map(|op| {
           let twin = build(&p.tree);
+          let twin_other = build(&p.tree);
           let mut keep = vec![];
-          run_op(&twin, &p.tree, &text, *op, &mut keep)
+          run_op(&twin, &twin_other, &p.tree, &text, *op, &mut keep)
         })
         .collect()
     })
@@ -444,6 +451,7 @@ pub fn execute(p: &Program, schedule: &[u8], max_preemptions: u32) -> RunOut {
   let retained_err: Arc<Mutex<Vec<String>>> = Arc::new(Mutex::new(vec![]));
   let identities: Arc<Mutex<Vec<(bool, usize)>>> = Arc::new(Mutex::new(vec![]));
   let (done_tx, done_rx) = std::sync::mpsc::channel::<usize>();
+  let other: BoxSource = build_shared(p);
   let pool_ok = POOL.with(|pool| {
     let mut pool = pool.borrow_mut();
     if pool.is_none() {
@@ -451,8 +459,8 @@ pub fn execute(p: &Program, schedule: &[u8], max_preemptions: u32) -> RunOut {
     }
     let pool = pool.as_ref().unwrap();
     for (tid, ops) in p.threads.iter().enumerate() {
-      let (sched, tree, text, answers, retained_err, ops, spec, done_tx, identities) =
-        (sched.clone(), tree.clone(), text.clone(), answers.clone(), retained_err.clone(), ops.clone(), p.tree.clone(), done_tx.clone(), identities.clone());
+      let (sched, tree, other, text, answers, retained_err, ops, spec, done_tx, identities) =
+        (sched.clone(), tree.clone(), other.clone(), text.clone(), answers.clone(), retained_err.clone(), ops.clone(), p.tree.clone(), done_tx.clone(), identities.clone());
       let job: Job = Box::new(move || {
         IDENTITIES.with(|i| i.borrow_mut().clear());
         install_hook(&sched, tid);
@@ -461,7 +469,7 @@ pub fn execute(p: &Program, schedule: &[u8], max_preemptions: u32) -> RunOut {
         for op in ops {
           // operation boundary: a schedule point of its own
           sched.point(tid, rspack_sources::verif::Event::Access, "op", 0, false, false);
-          let a = run_op(&tree, &spec, &text, op, &mut keep);
+          let a = run_op(&tree, &other, &spec, &text, op, &mut keep);
           answers.lock().unwrap()[tid].push(a);
         }
         remove_hook();
